@@ -745,7 +745,7 @@ class FnEmitter:
                 cal = self.strip(kids(cal)[0])
             if cal.get('referencedDecl', {}).get('name') == 'operator->':
                 pct = bct[:-2] if bct.endswith(' *') else bct
-                if be.startswith('(*') and '__ref(' in be:
+                if be.startswith('(*') and ('__ref(' in be or '__ptr(' in be):
                     return '%s.%s' % (be, sanitize(name))
                 if self.ty.kind(pct) == 'handle':
                     return '%s__get_%s(%s)' % (pct, sanitize(name), be)
@@ -1108,6 +1108,9 @@ class FnEmitter:
             if op == '[]':
                 return '(*%s__ref_at(%s, %s))' % (sanitize(ct0), self.expr(a0), self.expr(args[1]))
             return '(*%s__ref(%s))' % (sanitize(ct0), self.expr(a0))
+        if el and self.ty.is_oomd_struct(el) and ct0.startswith('opt_') and op in ('*', '->') and len(args) == 1 \
+                and self.strip(a0).get('valueCategory') == 'lvalue':
+            return '(*%s__ptr(&%s))' % (sanitize(ct0), self.expr(a0))     # lvalue access to the contained struct
         mut = op in MUTATING_OPS and not (op == '[]' and ct0.startswith('vec_'))
         rid = ref.get('id')
         q = self.idx.qname.get(rid)
